@@ -25,6 +25,7 @@ type Engine struct {
 	guardHook     func(x *Executor, st *State, a *Addr, reach string)
 	constGlob     map[string]bool
 	constErrCache map[*ssa.Global]bool
+	canonStructs  map[*types.Struct]types.Type
 	loadSecs      float64
 }
 
@@ -186,7 +187,7 @@ func LoadEngine(repo string, patterns []string, overlay map[string][]byte, specs
 	prog, _ := ssautil.AllPackages(pkgs, ssa.NaiveForm|ssa.GlobalDebug)
 	prog.Build()
 	eng := &Engine{repo: repo, prog: prog, pkgs: pkgs, allPkgs: map[string]*packages.Package{}, ssaPkgs: map[string]*ssa.Package{},
-		specs: specs, typeIDs: map[string]int{}, funcIDs: map[*ssa.Function]int{}, constGlob: map[string]bool{}}
+		specs: specs, typeIDs: map[string]int{}, funcIDs: map[*ssa.Function]int{}, constGlob: map[string]bool{}, canonStructs: map[*types.Struct]types.Type{}}
 	packages.Visit(pkgs, nil, func(p *packages.Package) {
 		eng.allPkgs[p.PkgPath] = p
 	})
